@@ -119,10 +119,30 @@ theorem faulty_value_origin (hk : env.cacheKind c = .scripted) (s s' : St) (w : 
               obtain ⟨fp, u1, u2, h1, h2, h3⟩ := scripted_get_from_store env run x c o hk t1 t2 w hg
               exact ⟨fp, t1, u1, u2, h1, h2, h3⟩
 
+/-- a blind fault (`lieBlind`): the backend claims the entry exists without looking at the request — no
+    fingerprint is computed, so this happens even for options under which the node's keys cannot be computed -/
+theorem blind_exists_claims (hk : env.cacheKind c = .scripted) (s s1 : St) (hb : blindFault c s = some (.ok true, s1)) :
+    backendExists env run x c o s =
+      some (.ok true, { s1 with events := Event.cacheOp c "exists" .none "blind" :: s1.events }) := by
+  simp [backendExists, hk, bind_run, hb, emit_run, pure_run]
+
+/-- … and the retrieval from such a backend fails with `CacheGetFailure`, which `Cached.evaluate` answers by
+    recomputing (`lie_exists_then_fail_get_recomputes`) -/
+theorem blind_get_fails (hk : env.cacheKind c = .scripted) (s s1 : St) (hb : blindFault c s = some (.ok true, s1)) :
+    backendGet env run x c o s =
+      some (.error cacheGetFailure, { s1 with events := Event.cacheOp c "get" .none "blind" :: s1.events }) := by
+  simp [backendGet, hk, bind_run, hb, emit_run, raise_run]
+
 /-! non-vacuity: under the script [miss, behave(set), failGet(read-back)] the evaluation still returns the value -/
 def c17Env : Env :=
   { β := fun f a k => .ok (.app f a k), binds := fun _ _ => .error "x", ov := fun _ => default, ds := fun _ => default,
     cacheKind := fun _ => .scripted }
+
+/-- two blind faults (claimed existence, failed retrieval), then a faithful store: the value is computed -/
+example : (match ev c17Env 20 .evaluate (.cached 2 (.option 1 "A" Option.none Option.none) 0) (.dict [("A", .int 4)])
+      { scripts := [(0, [.lieBlind, .lieBlind])] } with
+    | some (.ok v, s) => decide (v = .int 4) && s.scripts == [(0, [])]
+    | _ => false) = true := by decide +kernel
 
 example : (match ev c17Env 20 .evaluate (.cached 2 (.option 1 "A" Option.none Option.none) 0) (.dict [("A", .int 4)])
       { scripts := [(0, [.miss, .behave, .failGet])] } with
